@@ -79,7 +79,6 @@ theorem handleConfig_get (env : Env) (r : Req) (p : Bytes) (s : State) (h : r.me
 
 structure CasInv (p : Bytes) (f : Nat → Option Json → Json) (V : Option Json → Prop) (v0 : Json) (y : Sys) : Prop where
   inv : Inv y.s
-  key : hasCfgKey y.s.rawCfg = true
   cur : ∃ v, (access .get p .empty y.s.rawCfg).2 = .ok (some v) ∧ chain f v0 y.log = some v ∧ V (some v)
   held : ∀ c ep out, y.held c = some (ep, out) → ep = p ∧ V out
 
@@ -98,7 +97,7 @@ theorem cas_step {env : Env} {p : Bytes} {f : Nat → Option Json → Json} {V :
     simp only at hv
     subst hv
     simp only
-    refine ⟨hi.inv, hi.key, ⟨v, by rw [hacc], hch, hV⟩, ?_⟩
+    refine ⟨hi.inv, ⟨v, by rw [hacc], hch, hV⟩, ?_⟩
     intro c' ep out hc'
     simp only [upd] at hc'
     split at hc'
@@ -130,7 +129,7 @@ theorem cas_step {env : Env} {p : Bytes} {f : Nat → Option Json → Json} {V :
     · -- the value changed since the ETag was issued: 412, nothing happens
       rw [if_pos hhash]
       simp only [changeResp]
-      exact ⟨hi.inv, hi.key, ⟨v, by rw [hacc], hch, hV⟩, held'⟩
+      exact ⟨hi.inv, ⟨v, by rw [hacc], hch, hV⟩, held'⟩
     · rw [if_neg hhash]
       have hout : out = some v := (hyp.inj _ _ hV hVout (by simpa using hhash)).symm
       subst hout
@@ -142,8 +141,7 @@ theorem cas_step {env : Env} {p : Bytes} {f : Nat → Option Json → Json} {V :
         rw [hr]
         simp only
         obtain ⟨hroot, o, hok⟩ := mutate_accepted hacc2
-        refine ⟨mutate_inv hi.inv hund, ?_, ⟨f c (some v), ?_, chain_append f _ _ _ _ hch, hyp.closed c v hV⟩, held'⟩
-        · rw [hroot]; exact access_patch_keeps_key hund hi.inv.shape hi.key
+        refine ⟨mutate_inv hi.inv hund, ⟨f c (some v), ?_, chain_append f _ _ _ _ hch, hyp.closed c v hV⟩, held'⟩
         · rw [hroot]
           exact access_patch_then_get (by rw [hacc]) hok
       · -- refused after the check (traversal error, rejected by the indexer or the apps): rolled back
@@ -157,7 +155,7 @@ theorem cas_step {env : Env} {p : Bytes} {f : Nat → Option Json → Json} {V :
         | _ =>
           simp only
           rw [hsame]
-          exact ⟨hi.inv, hi.key, ⟨v, by rw [hacc], hch, hV⟩, held'⟩
+          exact ⟨hi.inv, ⟨v, by rw [hacc], hch, hV⟩, held'⟩
 
 theorem cas_run {env : Env} {p : Bytes} {f : Nat → Option Json → Json} {V : Option Json → Prop} {v0 : Json}
     (hyp : CasHyp env p f V) :
